@@ -51,29 +51,29 @@ mod sp_weighted__par;
 mod longest_capped__topar;
 mod set_reach__gen;
 mod bset__ser;
-mod opt_lat__ser;
-mod bool_lat__pari;
-mod lat_multi_improve__topar;
-mod count_paths__topar;
-mod count_paths__init;
-mod neg_basic__run;
-mod neg_basic__runpar;
-mod agg_minmaxsum__ser;
-mod agg_lattice__ser;
-mod neg_rec_after__ser;
-mod agg_empty__ser;
-mod agg_empty_rel__to;
-mod disj__par;
-mod disj__src1;
-mod disj__ren;
-mod disj_nested__exppar;
-mod rep_expr__pari;
-mod neg_in_disj__ser;
-mod mac_basic__to;
-mod mac_basic__redecl;
-mod mac_capture__pari;
-mod mac_gensym_disj__ser;
-mod mac_disj__exp;
+mod cp__to;
+mod bool_lat__ser;
+mod lat_multi_improve__pari;
+mod count_paths__pari;
+mod count_paths__src2;
+mod neg_basic__to;
+mod neg_basic__redecl;
+mod neg_basic__exp;
+mod agg_depth__to;
+mod agg_user__par;
+mod agg_bound_mix__par;
+mod agg_empty_rel__par;
+mod agg_const_args__exppar;
+mod disj__gen;
+mod disj__perm1;
+mod disj_nested__pari;
+mod rep_expr__ser;
+mod multi_head_disj__exp;
+mod mac_basic__par;
+mod mac_basic__src1;
+mod mac_capture__ser;
+mod mac_nested__exp;
+mod mac_disj__par;
 
 fn lookup(name: &str) -> fn() -> Box<dyn Driven> {
    match name {
@@ -120,29 +120,29 @@ fn lookup(name: &str) -> fn() -> Box<dyn Driven> {
       "longest_capped__topar" => longest_capped__topar::make,
       "set_reach__gen" => set_reach__gen::make,
       "bset__ser" => bset__ser::make,
-      "opt_lat__ser" => opt_lat__ser::make,
-      "bool_lat__pari" => bool_lat__pari::make,
-      "lat_multi_improve__topar" => lat_multi_improve__topar::make,
-      "count_paths__topar" => count_paths__topar::make,
-      "count_paths__init" => count_paths__init::make,
-      "neg_basic__run" => neg_basic__run::make,
-      "neg_basic__runpar" => neg_basic__runpar::make,
-      "agg_minmaxsum__ser" => agg_minmaxsum__ser::make,
-      "agg_lattice__ser" => agg_lattice__ser::make,
-      "neg_rec_after__ser" => neg_rec_after__ser::make,
-      "agg_empty__ser" => agg_empty__ser::make,
-      "agg_empty_rel__to" => agg_empty_rel__to::make,
-      "disj__par" => disj__par::make,
-      "disj__src1" => disj__src1::make,
-      "disj__ren" => disj__ren::make,
-      "disj_nested__exppar" => disj_nested__exppar::make,
-      "rep_expr__pari" => rep_expr__pari::make,
-      "neg_in_disj__ser" => neg_in_disj__ser::make,
-      "mac_basic__to" => mac_basic__to::make,
-      "mac_basic__redecl" => mac_basic__redecl::make,
-      "mac_capture__pari" => mac_capture__pari::make,
-      "mac_gensym_disj__ser" => mac_gensym_disj__ser::make,
-      "mac_disj__exp" => mac_disj__exp::make,
+      "cp__to" => cp__to::make,
+      "bool_lat__ser" => bool_lat__ser::make,
+      "lat_multi_improve__pari" => lat_multi_improve__pari::make,
+      "count_paths__pari" => count_paths__pari::make,
+      "count_paths__src2" => count_paths__src2::make,
+      "neg_basic__to" => neg_basic__to::make,
+      "neg_basic__redecl" => neg_basic__redecl::make,
+      "neg_basic__exp" => neg_basic__exp::make,
+      "agg_depth__to" => agg_depth__to::make,
+      "agg_user__par" => agg_user__par::make,
+      "agg_bound_mix__par" => agg_bound_mix__par::make,
+      "agg_empty_rel__par" => agg_empty_rel__par::make,
+      "agg_const_args__exppar" => agg_const_args__exppar::make,
+      "disj__gen" => disj__gen::make,
+      "disj__perm1" => disj__perm1::make,
+      "disj_nested__pari" => disj_nested__pari::make,
+      "rep_expr__ser" => rep_expr__ser::make,
+      "multi_head_disj__exp" => multi_head_disj__exp::make,
+      "mac_basic__par" => mac_basic__par::make,
+      "mac_basic__src1" => mac_basic__src1::make,
+      "mac_capture__ser" => mac_capture__ser::make,
+      "mac_nested__exp" => mac_nested__exp::make,
+      "mac_disj__par" => mac_disj__par::make,
       _ => panic!("no such program variant in this shard: {}", name),
    }
 }
